@@ -552,6 +552,9 @@ struct Runner<'a> {
     poisoned: bool,
     /// the case used the raw `take` / `reset` API on an id that no completion reported (see `taint`)
     tainted: Option<String>,
+    /// (source, number of consecutive `next` lines on it that were Pending while its fd was readable)
+    streak: (usize, u32),
+    keep_streak: Option<(usize, u32)>,
 }
 
 impl Runner<'_> {
@@ -635,6 +638,66 @@ impl Runner<'_> {
         }
         sys.held.insert(id, Held { buf: b, ptr, cap, canary: c });
         format!("{id}:{len}")
+    }
+
+    /// one `poll_next` of the stream of source `i`: (result text, was Pending)
+    fn poll_stream(&mut self, i: usize) -> (String, bool) {
+        let sys = self.sys.as_mut().unwrap();
+        let s = sys.srcs[i].as_mut().unwrap();
+        let st = s.strm.as_mut().unwrap();
+        let mut cx = noop_cx();
+        let p = sys.rt.as_ref().unwrap().enter(|| st.as_mut().poll_next(&mut cx));
+        match p {
+            Poll::Pending => ("pending".to_string(), true),
+            Poll::Ready(None) => ("end".to_string(), false),
+            Poll::Ready(Some(Err(e))) => {
+                s.lossy = true;
+                (format!("err {}", err_name(&e)), false)
+            }
+            Poll::Ready(Some(Ok(b))) => (format!("item {}", self.acquire(b, Some(i))), false),
+        }
+    }
+
+    /// is the receiving fd of source `i` readable right now (data or EOF pending in the kernel)?
+    fn readable(&self, i: usize) -> bool {
+        let sys = self.sys.as_ref().unwrap();
+        let Some(Some(s)) = sys.srcs.get(i) else { return false };
+        let fd = match &s.rx {
+            Rx::Pipe(r) => r.as_raw_fd(),
+            Rx::Tcp(r) => r.as_raw_fd(),
+            Rx::Unix(r) => r.as_raw_fd(),
+            Rx::Udp(r) => r.as_raw_fd(),
+            Rx::File(_) => return false,
+        };
+        let mut pfd = libc::pollfd { fd, events: libc::POLLIN, revents: 0 };
+        let r = unsafe { libc::poll(&mut pfd, 1, 0) };
+        r > 0 && (pfd.revents & (libc::POLLIN | libc::POLLHUP)) != 0
+    }
+
+    /// M6: the stream of source `i` stays Pending although its fd is readable
+    fn report_hang(&mut self, i: usize, polls: u32) {
+        let sys = self.sys.as_ref().unwrap();
+        let snap = sys.snap();
+        let no_free = if sys.ring { snap.prov.is_empty() } else { snap.queue.is_empty() };
+        let held = sys.held.len();
+        let n = sys.n;
+        if no_free {
+            fail(
+                self.ex,
+                &self.tainted,
+                "C07:exhaustion-hang",
+                format!(
+                    "stream of source {i}: data is pending, the pool has no free buffer ({held} of {n} held by the user), and {polls} consecutive polls (driver run in between) returned Pending instead of Err(ResourceBusy)"
+                ),
+            );
+        } else {
+            fail(
+                self.ex,
+                &self.tainted,
+                "C07:hang",
+                format!("stream of source {i}: data is pending, buffers are available, and {polls} consecutive polls returned Pending"),
+            );
+        }
     }
 
     /// monitors evaluated after every operation
@@ -899,25 +962,44 @@ impl Runner<'_> {
                 s.strm = st;
                 self.finish_line("ok".into())
             }
-            ["next", i] => {
+            ["next", i] | ["nextw", i] => {
                 let Ok(i) = i.parse::<usize>() else { return "bad".into() };
                 if !self.src_ok(i) {
                     return "bad".into();
                 }
-                let sys = self.sys.as_mut().unwrap();
-                let s = sys.srcs[i].as_mut().unwrap();
-                let Some(st) = s.strm.as_mut() else { return "bad".into() };
-                let mut cx = noop_cx();
-                let p = sys.rt.as_ref().unwrap().enter(|| st.as_mut().poll_next(&mut cx));
-                let res = match p {
-                    Poll::Pending => "pending".to_string(),
-                    Poll::Ready(None) => "end".to_string(),
-                    Poll::Ready(Some(Err(e))) => {
-                        s.lossy = true;
-                        format!("err {}", err_name(&e))
+                if self.sys.as_ref().unwrap().srcs[i].as_ref().unwrap().strm.is_none() {
+                    return "bad".into();
+                }
+                let wait = w[0] == "nextw";
+                let streak = if self.streak.0 == i { self.streak.1 } else { 0 };
+                let (mut res, mut pending) = self.poll_stream(i);
+                if !wait {
+                    // M6 (passive): two consecutive polls of the same stream (the driver ran in between) both
+                    // Pending although the fd is readable: the stream neither yields nor reports exhaustion
+                    if pending && self.readable(i) {
+                        self.keep_streak = Some((i, streak + 1));
+                        if streak + 1 >= 2 {
+                            self.report_hang(i, streak + 1);
+                        }
                     }
-                    Poll::Ready(Some(Ok(b))) => format!("item {}", self.acquire(b, Some(i))),
-                };
+                    return self.finish_line(res);
+                }
+                // `nextw`: await the item -- poll, let the driver run, poll again; a further Pending is only
+                // legitimate when there is nothing to read
+                let mut polls = 1;
+                while pending && (polls < 2 || (self.readable(i) && polls < 64)) {
+                    self.sys.as_ref().unwrap().settle();
+                    let r = self.poll_stream(i);
+                    res = r.0;
+                    pending = r.1;
+                    polls += 1;
+                }
+                if pending && self.readable(i) {
+                    self.report_hang(i, polls);
+                }
+                if polls > 2 {
+                    self.ex.tag("nextw:more-than-2-polls");
+                }
                 self.finish_line(res)
             }
             ["dstream", i] => {
@@ -1213,13 +1295,16 @@ fn exec(case: &Case) -> Exec {
     let trace = std::env::var("C07_TRACE").is_ok();
     let mut out = vec![];
     {
-        let mut r = Runner { sys: None, ex: &mut ex, trace, poisoned: false, tainted: None };
+        let mut r = Runner { sys: None, ex: &mut ex, trace, poisoned: false, tainted: None, streak: (usize::MAX, 0), keep_streak: None };
         for line in &case.lines {
             let w: Vec<&str> = line.split_whitespace().collect();
             let o = if r.poisoned {
                 "dead".to_string()
             } else {
-                match catch(|| r.op(&w)) {
+                r.keep_streak = None;
+                let res = catch(|| r.op(&w));
+                r.streak = r.keep_streak.take().unwrap_or((usize::MAX, 0));
+                match res {
                     Ok(o) => o,
                     Err(p) => {
                         let name = panic_name(&p);
@@ -1500,7 +1585,7 @@ fn gen_program(rng: &mut Rng, kind: &str, n: u64, len: u64, n_ops: usize) -> Vec
             }
         } else if r < 77 {
             if s.strm {
-                lines.push(format!("next {i}"));
+                lines.push(format!("{} {i}", if rng.chance(1, 3) { "nextw" } else { "next" }));
                 if rng.chance(1, 3) {
                     s.data = false;
                 }
@@ -1555,9 +1640,12 @@ fn gen_exhaust(rng: &mut Rng, kind: &str, n: u64, len: u64) -> Vec<String> {
         for _ in 0..np + 1 {
             lines.push("write 0 1".into());
         }
+        let nx = if rng.chance(1, 2) { "nextw 0" } else { "next 0" };
         for _ in 0..np + 2 {
-            lines.push("next 0".into());
+            lines.push(nx.into());
         }
+        lines.push(nx.into());
+        lines.push(nx.into());
     } else {
         for _ in 0..np + 1 {
             lines.push("write 0 1".into());
@@ -1614,6 +1702,41 @@ fn gen_cancel_race(rng: &mut Rng, kind: &str, n: u64, len: u64, sk: &str) -> Vec
     lines.push("write 0 3".into());
     lines.push("read 0 0".into());
     lines.push("await 0".into());
+    lines
+}
+
+/// a multishot stream whose consumer holds every buffer of the pool while more data is pending: the next
+/// item must be `Err(ResourceBusy)` (not a hang), again and again, and after a buffer was dropped the
+/// stream must continue
+fn gen_stream_exhaust(rng: &mut Rng, kind: &str, n: u64, len: u64, sk: &str) -> Vec<String> {
+    let mut lines = vec![format!("init {kind} {n} {len}"), format!("src 0 {sk} 0")];
+    let np = n.next_power_of_two();
+    let l = if sk == "pipe" { 0 } else { *rng.pick(&[0, len]) };
+    lines.push(format!("open 0 {l}"));
+    lines.push("nextw 0".into());
+    // more chunks than the pool has buffers
+    let chunks = np + 2 + rng.below(3);
+    for _ in 0..chunks {
+        lines.push(format!("write 0 {len}"));
+    }
+    let nx = |rng: &mut Rng| if rng.chance(2, 3) { "nextw 0" } else { "next 0" };
+    for _ in 0..np {
+        lines.push("nextw 0".into());
+    }
+    // every buffer is held, data is pending
+    for _ in 0..rng.range(2, 5) {
+        lines.push(nx(rng).into());
+    }
+    // give one buffer back: the stream continues
+    lines.push(format!("dropn {}", rng.below(16)));
+    lines.push("nextw 0".into());
+    lines.push("nextw 0".into());
+    lines.push(nx(rng).into());
+    lines.push(format!("dropn {}", rng.below(16)));
+    lines.push(format!("dropn {}", rng.below(16)));
+    for _ in 0..4 {
+        lines.push("nextw 0".into());
+    }
     lines
 }
 
@@ -1770,6 +1893,19 @@ fn generate(tier: &str, rng: &mut Rng) -> Vec<Case> {
                 let n = if rep == 0 { [1, 2, 4, 8][c] } else { rng.range(1, 16) };
                 let len = *rng.pick(&lens[..4]);
                 cases.push(Case { name: format!("cancel-race-{kind}-{sk}-{rep}"), lines: gen_cancel_race(rng, kind, n, len, sk) });
+            }
+        }
+    }
+    // exhaustion of a multishot stream is an error, not a hang; the stream continues afterwards
+    for (c, sk) in ["tcp", "unix", "udp", "pipe"].iter().enumerate() {
+        for kind in ["ring", "fb"] {
+            if kind == "ring" && !ring_ok {
+                continue;
+            }
+            for rep in 0..(if thorough { 16 } else { 3 }) {
+                let n = if rep == 0 { [2, 1, 8, 4][c] } else { rng.range(1, 16) };
+                let len = *rng.pick(&lens[..4]);
+                cases.push(Case { name: format!("stream-exhaust-{kind}-{sk}-{rep}"), lines: gen_stream_exhaust(rng, kind, n, len, sk) });
             }
         }
     }
